@@ -119,8 +119,21 @@ def bin_name(run):
     return "%s.%s%s" % (stem, run["flavour"], extra)
 
 
+import threading
+_compile_locks = {}
+_compile_locks_guard = threading.Lock()
+
+
 def compile_run(run):
-    """Compiles one (source, flavour) pair; returns (binary path or None, message)."""
+    """Compiles one (source, flavour) pair; returns (binary path or None, message).  Serialised per binary."""
+    name = bin_name(run)
+    with _compile_locks_guard:
+        lock = _compile_locks.setdefault(name, threading.Lock())
+    with lock:
+        return _compile_run(run)
+
+
+def _compile_run(run):
     os.makedirs(os.path.join(BUILD, "bin"), exist_ok=True)
     src = os.path.join(VERIF, run["src"])
     out = os.path.join(BUILD, "bin", bin_name(run))
@@ -144,7 +157,7 @@ def compile_run(run):
     t0 = time.time()
     # compile to private temporaries and rename, so that two checks building the same binary
     # at the same time (C01/C02/C03 share sources) never see a half-written file
-    tmp = "%s.tmp%d" % (out, os.getpid())
+    tmp = "%s.tmp%d_%d" % (out, os.getpid(), threading.get_ident())
     tcmd = cmd[:-1] + [tmp]
     p = subprocess.run(tcmd + ["-MD", "-MF", tmp + ".d"], stdout=subprocess.PIPE, stderr=subprocess.STDOUT, text=True)
     if p.returncode != 0:
